@@ -393,7 +393,7 @@ func (w *World) elemsKeyOld(s Sort) string {
 }
 
 func (w *World) mapKeys(k, v Sort) (dom, val string) {
-	dom = "MapDom!" + sortSuffix(k)
+	dom = "MapDom!" + sortSuffix(k) + "!" + sortSuffix(v)
 	val = "MapVal!" + sortSuffix(k) + "!" + sortSuffix(v)
 	w.heapSort[dom] = arraySort(SInt, arraySort(k, SBool))
 	w.heapSort[val] = arraySort(SInt, arraySort(k, v))
